@@ -17,6 +17,19 @@ from vlib.batch import run_items
 HERE = os.path.dirname(os.path.abspath(__file__))
 
 
+def rerun_timeouts(results, items, cmd, workdir, env):
+    """A driver that exceeds its wall-clock limit on a loaded machine is not an observation about the item:
+    re-run such an item alone with a generous limit; only a reproducible timeout stays a crash."""
+    n = 0
+    for r in results:
+        if r.crash == "timeout":
+            n += 1
+            res, _ = run_items(cmd, [items[r.index]], os.path.join(workdir, "retry"), env, chunk=1, workers=1, per_item_timeout=300)
+            if res and not res[0].crash:
+                r.lines, r.crash, r.stderr = res[0].lines, None, ""
+    return n
+
+
 def fast_env(scratch, extra=None):
     """san_env with a small ASan quarantine: the default 256 MB quarantine makes every allocation of a long-running
     driver touch fresh pages (measured: 3.4x wall, 5x system time); 8 MB still catches use-after-free of recent frees."""
@@ -127,8 +140,11 @@ def main():
                 seen.add(t)
                 items.append(t)
         counts[name] = len(items) - n0
-    deadline = time.time() + c.budget(70, 1000)     # counted from here: a header edit rebuilds all of libocca first
+    # The work of a tier is a fixed, bounded set sized by CPU time (quick: 4-7 CPU-minutes = 15-25 s on 16 idle cores).
+    # The wall-clock deadline is only a safety net for a heavily loaded machine; it starts after the (possibly long) build.
+    deadline = time.time() + c.budget(600, 3000)
     results, complete = run_items([exe], items, c.scratch, env, chunk=max(200, len(items) // 32 + 1), per_item_timeout=0.5, deadline=deadline)
+    c.coverage["driver_timeouts_retried"] = rerun_timeouts(results, items, [exe], c.scratch, env)
     digests = set()
     answered = 0
     for r in results:
